@@ -221,6 +221,9 @@ def run(prop, replay=None):
                 "executor's result for the unoptimized tree equals Plan!Eval (binding of the specification). Non-trivial = some "
                 "pass changed the tree and the relation is non-empty",
         "traces_validated_against_impl": judged + unexplained,
+        "samples": [{"origin": r["origin"], "rule_text": r["text"], "before": r["before"],
+                     "after_optimizer": r["after"]["optimizer"]["plan"], "exec_before": r["exec"]["before"]["rows"][:5]}
+                    for r in list(recs.values())[:2]],
     })
     rep.assumptions += ["a plan denotes a set of rows; aggregates are generated over a Distinct input (multiplicities of "
                         "intermediate rows are not modelled)",
